@@ -289,6 +289,12 @@ if order == "grammar":
     import odata_query.grammar
 elif order == "sql":
     import odata_query.sql, odata_query.roundtrip
+elif order == "sqlalchemy":
+    import odata_query.sqlalchemy
+elif order == "django":
+    import odata_query.django
+elif order == "everything":
+    import odata_query.sqlalchemy, odata_query.django, odata_query.sql, odata_query.roundtrip, odata_query.rewrite
 else:
     import odata_query.rewrite, odata_query.utils
 from odata_query.grammar import ODataLexer, ODataParser
@@ -342,6 +348,12 @@ def corpus_for(seed, n_random):
         out.append(printer.render(t))
     out.extend(VALID)
     out.extend(ERRORS)
+    # every built-in with every argument count 0..4: arity verdicts must not depend on what was imported
+    from .. import spec_tables
+    for (ns, name) in sorted(spec_tables.FUNCTIONS):
+        full = ".".join(ns + (name,))
+        for n in range(0, 5):
+            out.append("%s(%s)" % (full, ", ".join("a%d" % i for i in range(n))))
     r = random.Random(seed)
     pool = list(out)
     for i in range(n_random):
@@ -358,7 +370,7 @@ def plan(tier, seed, scale):
     hs = [0, 1, 2, 3, 12345] if tier == "quick" else [0, 1, 2, 3, 7, 42, 12345, 99999, 4294967295]
     for i, h in enumerate(hs):
         tasks.append({"name": "children-%d" % h, "kind": "children", "hashseeds": [0, h] if h else [0, 0],
-                      "orders": ["grammar", "sql", "rewrite"], "n_random": 2000 if tier == "quick" else 10000})
+                      "orders": ["grammar", "sql", "rewrite", "sqlalchemy", "django", "everything"], "n_random": 2000 if tier == "quick" else 10000})
     return tasks
 
 
